@@ -464,7 +464,7 @@ def run_api(case, ctx):
 
 def subs(tier):
     return [
-        Sub("copy", run_copy, strategy=state_case(), quick=1600, thorough=40000, shards_quick=8, shards_thorough=16),
-        Sub("mutate", run_mutate, strategy=state_case(), quick=240, thorough=6000, shards_quick=6, shards_thorough=16),
-        Sub("api", run_api, strategy=state_case(), quick=1200, thorough=30000, shards_quick=4, shards_thorough=16),
+        Sub("copy", run_copy, strategy=state_case(), quick=1600, thorough=240000, shards_quick=8, shards_thorough=16),
+        Sub("mutate", run_mutate, strategy=state_case(), quick=240, thorough=30000, shards_quick=6, shards_thorough=16),
+        Sub("api", run_api, strategy=state_case(), quick=1200, thorough=150000, shards_quick=4, shards_thorough=16),
     ]
